@@ -8,6 +8,7 @@ pub mod req;
 pub mod c14;
 pub mod c15;
 pub mod c16;
+pub mod c17;
 pub mod c20;
 
 pub fn run(ctx: &mut Ctx, suite: &str) {
@@ -22,6 +23,7 @@ pub fn run(ctx: &mut Ctx, suite: &str) {
         "c14" => c14::run(ctx),
         "c15" => c15::run(ctx),
         "c16" => c16::run(ctx),
+        "c17" => c17::run(ctx),
         "c20" => c20::run(ctx),
         _ => {
             eprintln!("unknown suite {suite}");
@@ -43,6 +45,7 @@ pub fn replay(ctx: &mut Ctx, tag: &str, args: &[&str]) {
         "c15s" => c15::case_set(ctx, args),
         "c16n" => c16::case_new(ctx, args[0]),
         "c16a" => c16::case_add(ctx, args[0], args[1]),
+        "c17" => c17::case(ctx, args[0], args[1]),
         "c20e" => c20::case_error(ctx, args[0]),
         "c20s" => c20::case_status(ctx, args[0], args[1]),
         _ => eprintln!("unknown case tag {tag}"),
